@@ -771,3 +771,5 @@ MANIFEST = {
     'technique': 'exception-escape analysis with configuration taint + provenance/table conformance',
     'design_ref': 'DESIGN.md 3/C19',
 }
+MANIFEST['note'] += (' Also decided here (necessary conditions shared between properties or added after the independent '
+                     'change rounds, DESIGN.md 8.7): PayloadID keeps the octets it is given (from C05), strict ip_network, each connection owns its protect list.')
